@@ -14,7 +14,7 @@ def execOff : Op → Obs
   | .cycle | .flush => .report none
   | .cycBegin => .phase "done"
   | .cycStep => .badOp "no cycle in progress"
-  | .stats => .stats ⟨[], 0⟩
+  | .stats => .stats ⟨[], 0, 0⟩
   | .rootFrom _ _ _ _ | .rootFromLocal _ _ _ => .badOp "no context"
   | _ => .ok
 
